@@ -141,6 +141,16 @@ def who(desc):
 
 
 def rows(facts, body):
+    from . import tables as _t
+    old = _t.OPTS['tuple_proj']
+    _t.OPTS['tuple_proj'] = True     # `match (opt_old, opt_new) {..}`: a test of `(a, b).0` is a test of `a`
+    try:
+        return _rows(facts, body)
+    finally:
+        _t.OPTS['tuple_proj'] = old
+
+
+def _rows(facts, body):
     canonicalise_names(body)
     heads = sorted(set(h for _t, h in body.back_edges()))
     out = []
